@@ -108,6 +108,12 @@ static void op_readseq(FILE *out, const char *id, char **a, int n) {
     if(!zck) { fprintf(out, "%s ERR open\n", id); return; }
     size_t sizes[64]; int ns = parse_sizes(a[1], sizes, 64);
     size_t cap = 1 << 20, len = 0; unsigned char *all = malloc(cap);
+    /* optional 4th argument match=<file>: zck_find_matching_chunks(<file>, this context) first - it marks chunks valid by
+     * comparing index checksums only; reading must verify the bytes all the same */
+    if(n >= 4 && strncmp(a[3], "match=", 6) == 0) {
+        int sfd; zckCtx *src = open_file(a[3] + 6, &sfd);
+        if(src) zck_find_matching_chunks(src, zck);
+    }
     fprintf(out, "%s OK rets=", id);
     int calls = 0, after_err = 0, maxcalls = 100000, ce = -1;
     for(;;) {
